@@ -85,7 +85,7 @@ def gen_case(rng):
 
 
 def gen(rng, tier):
-    for _ in range(320 if tier == "quick" else 8000):
+    for _ in range(320 if tier == "quick" else 2500):
         yield gen_case(rng)
 
 
